@@ -764,7 +764,9 @@ def cmd_root(a, n, kind, cell=None, budget=True):
     bits = max(abs(a).bit_length(), 1)
     # Newton from above needs O(log bits + n) iterations when started at 2^ceil(bits/n)+1; the
     # library's fixpoint can also climb/saturate first.  Generous proven-style bound:
-    bud = 40 + 4 * bits.bit_length() + 2 * min(n, bits) + bits // max(n, 1) // 8
+    # generous on purpose: the budget restates 'terminates' as bounded progress, it must not encode this revision's
+    # convergence rate (a bisection would be just as correct); an oscillating loop exhausts any finite budget
+    bud = 2000 + 64 * bits
     line = 'root %s %d%s' % (tok(a, kind), n, (' b%d' % bud) if budget else '')
     if n == 0:
         want = PANIC
@@ -798,7 +800,7 @@ def cmd_root(a, n, kind, cell=None, budget=True):
 
 def cmd_gcd(a, b, kind, cell=None):
     bits = max(abs(a).bit_length(), abs(b).bit_length(), 1)
-    line = 'gcd %s %s b%d' % (tok(a, kind), tok(b, kind), 4 * bits + 50)
+    line = 'gcd %s %s b%d' % (tok(a, kind), tok(b, kind), 64 * bits + 2000)
     g = math.gcd(a, b)
     l = 0 if (a == 0 or b == 0) else abs(a * b) // g
     mult = (a == 0) if b == 0 else (a % b == 0)
